@@ -293,7 +293,6 @@ int main(int argc, char** argv)
     wide_all<cnl::wide_integer<1000>>(out, 7);
 #elif WIDE_SET == 4
     wide_all<cnl::wide_integer<2048, std::uint32_t>>(out, 8);
-    wide_all<cnl::wide_integer<65>>(out, 9);
 #endif
     std::fprintf(stderr, "events=%llu insts=%d\n", out.n, out.ninst);
     return 0;
